@@ -1,5 +1,15 @@
 #!/bin/bash
-# usage: sweep.sh <tier> <seed...>
+# tools/sweep.sh <tier> <seed...>   run every check at the given seeds (logs sweep_<tier>_s<seed>_<ID>.log in cwd).
+# Under `vp run --with-repo` the snapshot's go.mod is pointed at the repo snapshot ($VP_RUN_REPO) so that
+# patches applied to /repo meanwhile (seed testing) cannot disturb the sweep. Exploration aid only:
+# registered checks and committed evidence always come from /verif against /repo.
+cd "$(dirname "$0")/.."
+. tools/env.sh
+if [ -n "${VP_RUN_REPO:-}" ] && [ "$PWD" != /verif ]; then
+  go mod edit -replace github.com/ipld/go-ipld-prime="$VP_RUN_REPO"
+  export REPO_ROOT="$VP_RUN_REPO"
+  echo "sweep: using repo snapshot $VP_RUN_REPO ($(git -C "$VP_RUN_REPO" rev-parse --short HEAD 2>/dev/null))"
+fi
 tier=$1; shift
 for seed in "$@"; do
 for i in 01 02 03 04 05 06 07 08 09 10 11 12 13 14 15 16 17 18 19 20; do
